@@ -341,8 +341,17 @@ def _maybe_float(value: Any) -> Any:
         return value
 
 
-def _default_matches_schema(default: Any, schema: Schema) -> bool:
+def _default_matches_schema(
+    default: Any, schema: Schema, named_schemas: Optional[NamedSchemas] = None
+) -> bool:
     # TODO: Consider using the validate functions here
+    if isinstance(schema, list):
+        return any(_default_matches_schema(default, s, named_schemas) for s in schema)
+    if isinstance(schema, dict):
+        schema = schema["type"]
+    elif schema not in PRIMITIVES and named_schemas and schema in named_schemas:
+        # A reference to a named type: the kind of its definition decides
+        schema = named_schemas[schema]["type"]
     if (
         (schema == "null" and default is not None)
         or (schema == "boolean" and not isinstance(default, bool))
@@ -352,6 +361,12 @@ def _default_matches_schema(default: Any, schema: Schema) -> bool:
         or (schema == "float" and not isinstance(_maybe_float(default), float))
         or (schema == "int" and not isinstance(default, int))
         or (schema == "long" and not isinstance(default, int))
+        or (schema == "fixed" and not isinstance(default, str))
+        or (schema == "enum" and not isinstance(default, str))
+        or (schema == "array" and not isinstance(default, list))
+        or (schema == "map" and not isinstance(default, dict))
+        or (schema == "record" and not isinstance(default, dict))
+        or (schema == "error" and not isinstance(default, dict))
     ):
         return False
     return True
@@ -384,7 +399,7 @@ def _parse_schema(
         ]
         if default is not NO_DEFAULT:
             for s in parsed_schemas:
-                if _default_matches_schema(default, s):
+                if _default_matches_schema(default, s, named_schemas):
                     break
             else:
                 _raise_default_value_error(default, schema, ignore_default_error)
@@ -403,6 +418,10 @@ def _parse_schema(
 
         if schema not in named_schemas:
             raise UnknownType(schema)
+
+        if default is not NO_DEFAULT:
+            if not _default_matches_schema(default, schema, named_schemas):
+                _raise_default_value_error(default, schema, ignore_default_error)
 
         if expand and "name" in named_schemas[schema]:
             # If `name` is in the schema, it has been fully resolved and so we
@@ -558,16 +577,7 @@ def _parse_schema(
         elif schema_type in PRIMITIVES:
             parsed_schema["type"] = schema_type
             if default is not NO_DEFAULT:
-                if (
-                    (schema_type == "null" and default is not None)
-                    or (schema_type == "boolean" and not isinstance(default, bool))
-                    or (schema_type == "string" and not isinstance(default, str))
-                    or (schema_type == "bytes" and not isinstance(default, str))
-                    or (schema_type == "double" and not isinstance(default, float))
-                    or (schema_type == "float" and not isinstance(default, float))
-                    or (schema_type == "int" and not isinstance(default, int))
-                    or (schema_type == "long" and not isinstance(default, int))
-                ):
+                if not _default_matches_schema(default, schema_type):
                     _raise_default_value_error(
                         default, schema_type, ignore_default_error
                     )
